@@ -219,3 +219,64 @@ Example C05_item_hyps :
                   /\ length (node_toks r2) = length (node_toks ex_open_num)
      | None => False end.
 Proof. exact ex_item_hyps. Qed.
+
+(* ---- optional fields (optional_node_property.__set__ with optional_left_field / optional_right_field) ------------
+   create_opt cs root p f seps y: at the model selected by p the empty optional slot f receives the child y. The
+   pivot token is computed as the implementation computes it (the chain `_f_pivot` extracted from the source,
+   c_pivots, evaluated on the children: the nearest present sibling); for a left field the separators and then
+   y's tokens go right after the pivot, for a right field y's tokens and then the separators go right before it.
+   remove_opt cuts everything between the pivot and the far end of the child and empties the slot.
+   classes_pivots_ok: every class's extracted pivot chains are the ones of the generic scheme (part of wf_desc,
+   C05_generated_classes_wf; C05_pivots_ok_all for the classes the harness evaluates with). *)
+From AB Require Import TreeEditProofs5.
+Theorem C05_pivots_ok_all : classes_pivots_ok all_classes.
+Proof. exact classes_pivots_ok_all. Qed.
+Theorem C05_create_optional : forall cs, classes_ok cs -> classes_pivots_ok cs -> forall root p f seps y root',
+  HWF cs root -> create_opt cs root p f seps y = Some root' ->
+  sub_ok cs (root_sid root) y -> glue_ok seps -> NoDup (ids (seps ++ node_toks y)) ->
+  (forall t t', In t (seps ++ node_toks y) -> In t' (node_toks root) -> k_id t <> k_id t') ->
+  HWF cs root' /\ WF cs root'
+  /\ (exists pre post Mnew, (Mnew = seps ++ node_toks y \/ Mnew = node_toks y ++ seps)
+        /\ node_toks root = pre ++ [] ++ post /\ node_toks root' = pre ++ Mnew ++ post)
+  /\ (forall t, In t (leaves root') -> In t (leaves root) \/ In t (seps ++ node_toks y)).
+Proof. exact create_opt_ok. Qed.
+Theorem C05_remove_optional : forall cs, classes_ok cs -> classes_pivots_ok cs -> forall root p f x root',
+  HWF cs root -> remove_opt cs root p f = Some (x, root') ->
+  HWF cs root' /\ WF cs root' /\ HWF cs x /\ exempt (UNode x) = false
+  /\ (exists pre g post Mold, (Mold = g ++ node_toks x \/ Mold = node_toks x ++ g)
+        /\ node_toks root = pre ++ Mold ++ post /\ node_toks root' = pre ++ [] ++ post)
+  /\ (forall t, In t (leaves root') -> In t (leaves root)).
+Proof. exact remove_opt_ok. Qed.
+(* histories over all slot kinds: edit2 = edit (replace a sub-tree | insert an item | remove an item) + create the
+   child of an empty optional slot from a re-attached donor + remove the child of an optional slot *)
+Theorem C05_edit_step_all_slots : forall cs, classes_ok cs -> classes_pivots_ok cs ->
+  forall a b, HWF cs a -> edit2 cs a b -> HWF cs b.
+Proof. exact edit2_HWF. Qed.
+Theorem C05_history_all_slots : forall cs, classes_ok cs -> classes_pivots_ok cs ->
+  forall a b, HWF cs a -> edits2 cs a b -> HWF cs b /\ WF cs b.
+Proof. exact history2_HWF. Qed.
+(* the hypotheses are met: `USD, EUR ; hi` -> inline comment removed -> booking "STRICT" created (root level), and an
+   inline comment created on the meta item (path through a repeated field); the first two as an edits2 history *)
+Example C05_optional_hyps :
+  match ex_opt_removed with
+  | Some (x, r) =>
+      hwf_b all_classes r = true /\ conforms all_classes r = true /\ hwf_b all_classes x = true
+      /\ length (node_toks r) = (length (node_toks ex_open_num) - 2)%nat
+      /\ hwf_b all_classes ex_booking = true /\ conforms all_classes ex_booking = true
+      /\ exempt (UNode ex_booking) = false
+      /\ forallb (fun t => negb (significant t)) ex_opt_seps = true
+      /\ ids_nodup_b (ex_opt_seps ++ node_toks ex_booking) = true
+      /\ fresh_list_b (ex_opt_seps ++ node_toks ex_booking) (node_toks r) = true
+  | None => False end
+  /\ match ex_opt_created with
+     | Some r2 => hwf_b all_classes r2 = true /\ conforms all_classes r2 = true
+                  /\ length (node_toks r2) = length (node_toks ex_open_num)
+     | None => False end
+  /\ match ex_opt_created_deep with
+     | Some r3 => hwf_b all_classes r3 = true /\ conforms all_classes r3 = true
+                  /\ length (node_toks r3) = (length (node_toks ex_open_num) + 2)%nat
+     | None => False end.
+Proof. exact ex_opt_hyps. Qed.
+Example C05_history_all_slots_example : exists r2, edits2 all_classes ex_open_num r2
+  /\ length (node_toks r2) = length (node_toks ex_open_num) /\ leaves r2 <> leaves ex_open_num.
+Proof. exact ex_opt_history. Qed.
